@@ -151,9 +151,10 @@ impl Context {
         self.defs.get(&name.into())
     }
 
-    pub fn replace_all(&self, s: &str) -> String {
+    pub fn replace_all(&self, s: &str) -> Result<String, String> {
         let mut res = String::from(s);
         let mut changed;
+        let mut passes = 0;
         loop {
             #[cfg(cc6502_verif)] crate::verif_hooks::tick("cpp.replace_all");
             changed = false;
@@ -171,8 +172,14 @@ impl Context {
             if !changed {
                 break;
             }
+            // A macro that expands (directly or not) to itself never reaches a fixed point,
+            // and nested uses of a long macro can grow without reasonable bound
+            passes += 1;
+            if passes > 256 || res.len() > 1024 * 1024 {
+                return Err("Macro expansion does not terminate or is too large (self-referential macro?)".to_string());
+            }
         }
-        res
+        Ok(res)
     }
 
     fn skip_whitespace(&self, expr: &mut &str) {
@@ -555,7 +562,12 @@ pub fn process<I: BufRead, O: Write>(
                         });
                     }
                     let buf = &caps[3];
-                    let mut value = context.replace_all(buf);
+                    let mut value = context.replace_all(buf).map_err(|msg| Error::Syntax {
+                        filename: filename.clone(),
+                        included_in: included_in.clone(),
+                        line,
+                        msg,
+                    })?;
                     if caps.get(2).is_none() {
                         context.define(mcro, value);
                     } else {
@@ -591,7 +603,12 @@ pub fn process<I: BufRead, O: Write>(
                     }
                 }
             } else {
-                let new_line = context.replace_all(&uncommented_buf);
+                let new_line = context.replace_all(&uncommented_buf).map_err(|msg| Error::Syntax {
+                    filename: filename.clone(),
+                    included_in: included_in.clone(),
+                    line,
+                    msg,
+                })?;
                 let substr = new_line.trim();
                 if substr.starts_with('#') {
                     let mut parts = substr.split("//").next().unwrap().splitn(2, ' ');
